@@ -897,6 +897,38 @@ Section Cache.
     specialize (Hok _ (nth_error_In _ _ Hv)). cbn [fst snd] in Hok. rewrite Hv, Hok. reflexivity.
   Qed.
 
+  (* NewStack(name, depth): the key of an Inc is the first depth pcs of the call
+     stack.  Two Incs hit one counter exactly when their stacks agree on those. *)
+  Lemma depth_identity (d : nat) fulls i j p q :
+    nth_error fulls i = Some p -> nth_error fulls j = Some q ->
+    let hits := snd (run symb name [] (map (firstn d) fulls)) in
+    nth_error hits i = nth_error hits j <-> firstn d p = firstn d q.
+  Proof.
+    intros Hi Hj hits.
+    pose proof (map_nth_error (firstn d) _ _ Hi) as Hi'. pose proof (map_nth_error (firstn d) _ _ Hj) as Hj'.
+    split.
+    - intro E. destruct (list_eq_dec N.eq_dec (firstn d p) (firstn d q)) as [Heq|Hne]; [exact Heq|].
+      exfalso. destruct (same_stack_same_counter _ _ _ _ Hi' Hi') as [_ Hsome].
+      destruct (nth_error hits i) as [c|] eqn:Ec; [|apply Hsome; exact Ec].
+      refine (different_stack_different_counter _ _ _ _ _ c Hi' Hj' Hne Ec _).
+      unfold hits in E. rewrite <- E. reflexivity.
+    - intro Heq. rewrite Heq in Hi'. destruct (same_stack_same_counter _ _ _ _ Hi' Hj') as [E _]. exact E.
+  Qed.
+
+  (* ReadStack keys: the expanded name of every counter is the uncompressed
+     rendering of its own stack's frames *)
+  Lemma readstack_key_expanded hist c pcs nm :
+    Forall rt_frame (symb pcs) -> pfx_ok name -> is_truncated name (symb pcs) = false ->
+    nth_error (fst (run symb name [] hist)) c = Some (pcs, nm) ->
+    decode_stack nm = render_plain name (symb pcs).
+  Proof.
+    intros Hrt Hp Ht Hn. destruct (run symb name [] hist) as [st2 hits] eqn:E. cbn [fst] in Hn.
+    destruct (run_hits _ _ _ _ E) as [_ [Hok _]].
+    assert (H : names_ok st2) by (apply Hok; constructor).
+    unfold names_ok in H. rewrite Forall_forall in H. specialize (H _ (nth_error_In _ _ Hn)).
+    cbn [fst snd] in H. subst nm. unfold encode_stack. apply decode_encode; assumption.
+  Qed.
+
   (* with an injective symboliser, different stacks get different names unless truncated *)
   Hypothesis symb_inj : forall p q, symb p = symb q -> p = q.
   Hypothesis symb_id : forall p, Forall id_frame (symb p).
